@@ -1,6 +1,6 @@
 (* C19 — mDL / AAMVA element encoding from JSON is faithful and validated.
-   Only pinned statements (closed by `exact`), the refutation witnesses of the known defect
-   classes, and non-vacuity examples.
+   Only pinned statements (closed by `exact`) and examples (non-vacuity; the former defect
+   witnesses, now handled as the property demands).
 
    Reading guide.  `ns_elements b64 n j` is the model of  T::from_json(&j).map(|x| x.to_ns_map())
    for the namespace struct T of n (Model/FromJson.v; the derive macros are interpreted over the
@@ -8,9 +8,10 @@
    universally quantified.  `ns_dm n` is the data-model table written from ISO 18013-5 Table 5 /
    the AAMVA guideline (Spec/MdlDataModel.v); `den .. c j v` says "j is in the domain of class c
    and v is the CBOR value prescribed for it", `dom .. c j` says "j is in the domain".
-   `known_record n kvs = None` excludes exactly the decidable defect classes listed in
-   known_findings.json; each class has a `_refuted` witness below.  `NoDup (map fst kvs)`: a
-   serde_json::Map has unique keys. *)
+   `NoDup (map fst kvs)`: a serde_json::Map has unique keys.  No other hypothesis: the eight
+   defect classes these theorems once excluded (known_findings.json, status fixed) are repaired
+   in the code and the model follows the repaired code; the former witnesses are the positive
+   Examples at the end. *)
 From Isomdl Require Import Lib.Bytes Lib.Cbor Lib.GenTypes Gen.Tables Gen.Fields Model.FromJson Spec.MdlDataModel.
 From Isomdl Require Import Proofs.C19Struct Proofs.C19Main Proofs.C19Theorems.
 Open Scope N_scope.
@@ -23,21 +24,21 @@ Proof. exact fields_iso_all. Qed.
 (* exactly one element per supplied field of the data model, including every well-formed
    age_over_NN / biometric_template_XX, and nothing else — for EVERY JSON object *)
 Theorem C19_exactly_supplied :
-  forall b64 n kvs out, NoDup (map fst kvs) -> known_record n kvs = None ->
+  forall b64 n kvs out, NoDup (map fst kvs) ->
     ns_elements b64 n (JObj kvs) = Ok out ->
     NoDup (map fst out) /\ forall k, In k (map fst out) <-> expected_id n kvs k.
 Proof. exact exactly_supplied. Qed.
 
 (* each output value has the CBOR type the data model prescribes for its identifier *)
 Theorem C19_types :
-  forall b64 n kvs out, NoDup (map fst kvs) -> known_record n kvs = None ->
+  forall b64 n kvs out, NoDup (map fst kvs) ->
     ns_elements b64 n (JObj kvs) = Ok out ->
     forall k v, In (k, v) out -> exists r, row_for (ns_dm n) k = Some r /\ cbor_type_ok (dm_class r) v.
 Proof. exact types. Qed.
 
 (* ... and is the supplied value, up to the documented case and UTC normalisation (den) *)
 Theorem C19_value_preserved :
-  forall b64 n kvs out, NoDup (map fst kvs) -> known_record n kvs = None ->
+  forall b64 n kvs out, NoDup (map fst kvs) ->
     ns_elements b64 n (JObj kvs) = Ok out ->
     forall k v, In (k, v) out ->
       exists r j, row_for (ns_dm n) k = Some r /\ jget k kvs = Some j /\
@@ -46,7 +47,7 @@ Proof. exact value_preserved. Qed.
 
 (* a record with a missing (absent or null) mandatory field is rejected *)
 Theorem C19_missing_rejected :
-  forall b64 n kvs r, NoDup (map fst kvs) -> known_record n kvs = None ->
+  forall b64 n kvs r, NoDup (map fst kvs) ->
     In r (ns_dm n) -> dm_presence r = Mandatory -> supplied kvs (dm_id r) = false ->
     exists e, ns_elements b64 n (JObj kvs) = Err e.
 Proof. exact missing_rejected. Qed.
@@ -54,29 +55,29 @@ Proof. exact missing_rejected. Qed.
 (* a record with an out-of-domain value is rejected (not altered, no panic): whole-record form,
    per fixed field, per age_over_NN / biometric_template_XX entry, per leaf type *)
 Theorem C19_out_of_domain_rejected :
-  forall b64 n kvs, NoDup (map fst kvs) -> known_record n kvs = None ->
+  forall b64 n kvs, NoDup (map fst kvs) ->
     ns_dom b64 n kvs = false -> exists e, ns_elements b64 n (JObj kvs) = Err e.
 Proof. exact out_of_domain_rejected. Qed.
 
 Theorem C19_bad_value_rejected :
-  forall b64 n kvs r j, NoDup (map fst kvs) -> known_record n kvs = None ->
+  forall b64 n kvs r j, NoDup (map fst kvs) ->
     In r (ns_dm n) -> is_family r = false -> jget (dm_id r) kvs = Some j -> j <> JNull ->
     dom b64 spec_fuel n kvs (dm_class r) j = false ->
     exists e, ns_elements b64 n (JObj kvs) = Err e.
 Proof. exact bad_value_rejected. Qed.
 
 Theorem C19_bad_family_value_rejected :
-  forall b64 n kvs r f k j, NoDup (map fst kvs) -> known_record n kvs = None ->
+  forall b64 n kvs r f k j, NoDup (map fst kvs) ->
     In r (ns_dm n) -> dm_presence r = Family f -> In (k, j) kvs -> fam_ok f (dm_id r) k = true ->
     dom b64 spec_fuel n kvs (dm_class r) j = false ->
     exists e, ns_elements b64 n (JObj kvs) = Err e.
 Proof. exact bad_family_value_rejected. Qed.
 
-(* per leaf type (every Rust type name of the two namespaces, at every nesting depth): outside the
-   known classes, Ok v => v is the prescribed encoding and the input is in the domain;
+(* per leaf type (every Rust type name of the two namespaces, at every nesting depth):
+   Ok v => v is the prescribed encoding and the input is in the domain;
    Err => the input is outside the domain; never a panic *)
 Theorem C19_leaf_types :
-  forall b64 f n name c ctx j, class_of_name n name = Some c -> known f n c j = None ->
+  forall b64 f n name c ctx j, class_of_name n name = Some c ->
     match name_leaf b64 f n name j with
     | Ok v => den b64 f n ctx c j v = true /\ dom b64 f n ctx c j = true
     | Err _ => dom b64 f n ctx c j = false
@@ -86,14 +87,13 @@ Proof. exact (fun b64 f n name c ctx j H => name_leaf_spec b64 f n name c ctx j 
 
 (* completeness: every record of the domain is accepted, and encoded faithfully *)
 Theorem C19_accepts_valid :
-  forall b64 n kvs, NoDup (map fst kvs) -> known_record n kvs = None ->
+  forall b64 n kvs, NoDup (map fst kvs) ->
     ns_dom b64 n kvs = true ->
     exists out, ns_elements b64 n (JObj kvs) = Ok out /\ faithful b64 n kvs out.
 Proof. exact accepts_valid. Qed.
 
-Theorem C19_no_panic :
-  forall b64 n kvs s, NoDup (map fst kvs) -> known_record n kvs = None ->
-    ns_elements b64 n (JObj kvs) <> Panic s.
+(* unconditional: any JSON value, any base64 decoder *)
+Theorem C19_no_panic : forall b64 n j s, ns_elements b64 n j <> Panic s.
 Proof. exact no_panic. Qed.
 
 Theorem C19_not_object_rejected :
@@ -117,7 +117,7 @@ Theorem C19_int_tables_roundtrip :
     (forall x v, assoc_n x (it_from t) = Some v -> assoc_b v (it_to t) = Some x).
 Proof. exact tables_roundtrip_int. Qed.
 
-(* ---------- the faithful model REFUTES the property text on the known classes ---------- *)
+(* ---------- examples: the hypotheses are inhabited; the former defect witnesses ---------- *)
 
 Definition jstr (x : String.string) : json := JStr (bytes_of_string x).
 Arguments jstr x%string_scope.
@@ -134,80 +134,73 @@ Definition with_field (k : String.string) (v : json) : list (bytes * json) :=
   (bytes_of_string k, v) :: filter (fun kv => negb (bytes_eqb (fst kv) (bytes_of_string k))) base_mdl.
 Arguments with_field k%string_scope v.
 
-Definition is_ok {A} (r : res A) : bool := match r with Ok _ => true | _ => false end.
 Definition is_err {A} (r : res A) : bool := match r with Err _ => true | _ => false end.
-Definition is_panic {A} (r : res A) : bool := match r with Panic _ => true | _ => false end.
+(* accepted, and the output is the faithful encoding *)
 Definition den_of (kvs : list (bytes * json)) : bool :=
   match ns_elements b64_decode Mdl (JObj kvs) with Ok out => ns_den b64_decode Mdl kvs out | _ => false end.
+Definition element (kvs : list (bytes * json)) (k : String.string) : option cbor :=
+  match ns_elements b64_decode Mdl (JObj kvs) with Ok out => assoc_b (bytes_of_string k) out | _ => None end.
+Arguments element kvs k%string_scope.
 
-(* non-vacuity: the base record meets every hypothesis and is encoded faithfully *)
-Example C19_base_ok :
-  known_record Mdl base_mdl = None /\ ns_dom b64_decode Mdl base_mdl = true /\ den_of base_mdl = true.
+Example C19_base_ok : ns_dom b64_decode Mdl base_mdl = true /\ den_of base_mdl = true.
 Proof. vm_compute. repeat split. Qed.
 
-(* F8a: 76 x U+00E9 is Latin-1 text of 76 characters (152 bytes): in the domain, rejected *)
-Example C19_latin1_refuted :
-  let kvs := with_field "family_name" (JStr (flat_map (fun _ => [195; 169]) (repeat tt 76))) in
-  known_record Mdl kvs = Some KLatin1Bytes /\ ns_dom b64_decode Mdl kvs = true /\
-  is_err (ns_elements b64_decode Mdl (JObj kvs)) = true.
+(* formerly F8a (b94f358): 76 x U+00E9 is 76 Latin-1 characters in 152 bytes: accepted; 151 characters: rejected *)
+Example C19_latin1_characters :
+  let e n := JStr (flat_map (fun _ => [195; 169]) (repeat tt n)) in
+  den_of (with_field "family_name" (e 76%nat)) = true /\ den_of (with_field "family_name" (e 150%nat)) = true /\
+  ns_dom b64_decode Mdl (with_field "family_name" (e 151%nat)) = false /\
+  is_err (ns_elements b64_decode Mdl (JObj (with_field "family_name" (e 151%nat)))) = true.
 Proof. vm_compute. repeat split. Qed.
 
-(* F8b: "0999-01-01" is accepted but encoded as "999-01-01" *)
-Example C19_fulldate_year_refuted :
-  let kvs := with_field "birth_date" (jstr "0999-01-01") in
-  known_record Mdl kvs = Some KFullDateYear /\ ns_dom b64_decode Mdl kvs = true /\
-  is_ok (ns_elements b64_decode Mdl (JObj kvs)) = true /\ den_of kvs = false /\
-  name_leaf b64_decode 1 Mdl (b "FullDate") (jstr "0999-01-01") = Ok (CTag 1004 (CText (b "999-01-01"))).
+(* formerly F8b (cb36dbb): the year keeps its leading zeros *)
+Example C19_fulldate_year :
+  den_of (with_field "birth_date" (jstr "0999-01-01")) = true /\
+  element (with_field "birth_date" (jstr "0999-01-01")) "birth_date" = Some (CTag 1004 (CText (b "0999-01-01"))) /\
+  element (with_field "birth_date" (jstr "0000-01-01")) "birth_date" = Some (CTag 1004 (CText (b "0000-01-01"))).
 Proof. vm_compute. repeat split. Qed.
 
-(* F8b': "-0001-01-01" / "+2020-01-01" are not RFC 3339 full-dates, yet accepted and rewritten *)
-Example C19_fulldate_signed_refuted :
-  let kvs := with_field "birth_date" (jstr "-0001-01-01") in
-  known_record Mdl kvs = Some KFullDateSigned /\ ns_dom b64_decode Mdl kvs = false /\
-  is_ok (ns_elements b64_decode Mdl (JObj kvs)) = true /\
-  name_leaf b64_decode 1 Mdl (b "FullDate") (jstr "-0001-01-01") = Ok (CTag 1004 (CText (b "-1-01-01"))) /\
-  name_leaf b64_decode 1 Mdl (b "FullDate") (jstr "+2020-01-01") = Ok (CTag 1004 (CText (b "2020-01-01"))).
+(* formerly (2004d42): a signed year is not an RFC 3339 full-date: rejected *)
+Example C19_fulldate_signed :
+  ns_dom b64_decode Mdl (with_field "birth_date" (jstr "-0001-01-01")) = false /\
+  is_err (ns_elements b64_decode Mdl (JObj (with_field "birth_date" (jstr "-0001-01-01")))) = true /\
+  is_err (ns_elements b64_decode Mdl (JObj (with_field "birth_date" (jstr "+2020-01-01")))) = true.
 Proof. vm_compute. repeat split. Qed.
 
-(* F8c: an instant before year 0000 (or after 9999) in UTC panics *)
-Example C19_tdate_panic_refuted :
-  let kvs := with_field "issue_date" (jstr "0000-01-01T00:00:00+01:00") in
-  known_record Mdl kvs = Some KTDateRange /\
-  ns_elements b64_decode Mdl (JObj kvs) = Panic site_tdate_format /\
-  name_leaf b64_decode 1 Mdl (b "TDate") (jstr "9999-12-31T23:59:59-01:00") = Panic site_tdate_to_offset.
+(* formerly F8c (03d9d06): a date-time whose UTC form leaves 0000..9999 is rejected, the boundary ones are kept *)
+Example C19_tdate_range :
+  is_err (ns_elements b64_decode Mdl (JObj (with_field "issue_date" (jstr "0000-01-01T00:00:00+01:00")))) = true /\
+  is_err (ns_elements b64_decode Mdl (JObj (with_field "issue_date" (jstr "9999-12-31T23:59:59-01:00")))) = true /\
+  ns_dom b64_decode Mdl (with_field "issue_date" (jstr "0000-01-01T00:00:00+01:00")) = false /\
+  element (with_field "issue_date" (jstr "0000-01-01T01:00:00+01:00")) "issue_date" = Some (CTag 0 (CText (b "0000-01-01T00:00:00Z"))) /\
+  element (with_field "issue_date" (jstr "9999-12-31T22:59:59-01:00")) "issue_date" = Some (CTag 0 (CText (b "9999-12-31T23:59:59Z"))).
 Proof. vm_compute. repeat split. Qed.
 
-(* leap second: accepted at a month end and rewritten to :59 *)
-Example C19_tdate_leap_refuted :
-  let kvs := with_field "issue_date" (jstr "2016-12-31T23:59:60Z") in
-  known_record Mdl kvs = Some KTDateLeap /\ ns_dom b64_decode Mdl kvs = false /\
-  is_ok (ns_elements b64_decode Mdl (JObj kvs)) = true /\
-  name_leaf b64_decode 1 Mdl (b "TDate") (jstr "2016-12-31T23:59:60Z") = Ok (CTag 0 (CText (b "2016-12-31T23:59:59Z"))).
+(* formerly (863f83b): a leap second has no tdate rendering: rejected, in every spelling *)
+Example C19_tdate_leap :
+  is_err (ns_elements b64_decode Mdl (JObj (with_field "issue_date" (jstr "2016-12-31T23:59:60Z")))) = true /\
+  is_err (ns_elements b64_decode Mdl (JObj (with_field "issue_date" (jstr "2016-12-31T23:59:60.5Z")))) = true /\
+  is_err (ns_elements b64_decode Mdl (JObj (with_field "issue_date" (jstr "2017-01-01T00:59:60+01:00")))) = true /\
+  ns_dom b64_decode Mdl (with_field "issue_date" (jstr "2016-12-31T23:59:60Z")) = false.
 Proof. vm_compute. repeat split. Qed.
 
-(* any byte is accepted between date and time *)
-Example C19_tdate_separator_refuted :
-  let kvs := with_field "issue_date" (jstr "2020-01-01x12:00:00Z") in
-  known_record Mdl kvs = Some KTDateSeparator /\ ns_dom b64_decode Mdl kvs = false /\
-  is_ok (ns_elements b64_decode Mdl (JObj kvs)) = true.
+(* formerly (6fb87ad): only T, t or a space may separate date and time; the output always has T and Z *)
+Example C19_tdate_separator :
+  is_err (ns_elements b64_decode Mdl (JObj (with_field "issue_date" (jstr "2020-01-01x12:00:00Z")))) = true /\
+  den_of (with_field "issue_date" (jstr "2020-01-01t12:00:00z")) = true /\
+  element (with_field "issue_date" (jstr "2020-01-01 12:00:00.75+01:30")) "issue_date" = Some (CTag 0 (CText (b "2020-01-01T10:30:00Z"))).
 Proof. vm_compute. repeat split. Qed.
 
-(* the key "biometric_template_" (empty type name) is emitted as an element *)
-Example C19_biometric_empty_refuted :
+(* formerly (7290d07): the bare prefix is not an identifier of the data model: ignored like any unknown key *)
+Example C19_biometric_bare_prefix :
   let kvs := with_field "biometric_template_" (jstr "AAEC") in
-  known_record Mdl kvs = Some KBiometricEmpty /\
-  is_ok (ns_elements b64_decode Mdl (JObj kvs)) = true /\ den_of kvs = false.
+  den_of kvs = true /\ element kvs "biometric_template_" = None /\
+  element (with_field "biometric_template_face" (jstr "AAEC")) "biometric_template_face" = Some (CBytes [0; 1; 2]).
 Proof. vm_compute. repeat split. Qed.
 
-(* "issuing_jurisdiction": null is rejected, although null means absent for optional fields *)
-Example C19_jurisdiction_null_refuted :
-  let kvs := with_field "issuing_jurisdiction" JNull in
-  known_record Mdl kvs = Some KJurisdictionNull /\ ns_dom b64_decode Mdl kvs = true /\
-  is_err (ns_elements b64_decode Mdl (JObj kvs)) = true.
-Proof. vm_compute. repeat split. Qed.
-
-(* for contrast: null for any other optional field is "absent" *)
-Example C19_null_optional_absent :
-  let kvs := with_field "sex" JNull in
-  known_record Mdl kvs = None /\ den_of kvs = true.
+(* formerly (41c99b3): null means absent, for issuing_jurisdiction as for every other optional field *)
+Example C19_null_is_absent :
+  den_of (with_field "issuing_jurisdiction" JNull) = true /\ element (with_field "issuing_jurisdiction" JNull) "issuing_jurisdiction" = None /\
+  den_of (with_field "sex" JNull) = true /\
+  element (with_field "issuing_jurisdiction" (jstr "US-NY")) "issuing_jurisdiction" = Some (CText (b "US-NY")).
 Proof. vm_compute. repeat split. Qed.
